@@ -71,6 +71,39 @@ def is_none_test_of(test, name):
     return None
 
 
+
+def check_padding_always_applied(ctx, cls):
+    """C06.R9: with a padding method the padder / unpadder always runs and its verdict stands."""
+    ctx.rule('C06.R9', 'in CryptographyEngine._handle_symmetric_padding a padder or unpadder that was built is always run to the end - every path from its construction to a normal return passes its finalize() - and a failure of finalize() is not swallowed: PKCS5 / ANSI X.923 pad every message, also one that already fills whole blocks (a whole block of padding is added), so skipping the padder for aligned input, or returning the text as it is when the padding cannot be removed, produces cipher text that differs from the reference cipher and plain text that does not survive Decrypt(Encrypt(m))')
+    fn = get_method(cls, '_handle_symmetric_padding')
+    g = CFG(fn)
+    rd = ReachingDefs(g)
+    site = '%s:%s CryptographyEngine._handle_symmetric_padding' % (CRYPTO, fn.lineno)
+    builds = []
+    for n in g.nodes:
+        if n.kind == 'stmt' and isinstance(n.stmt, ast.Assign) and len(n.stmt.targets) == 1 and isinstance(n.stmt.targets[0], ast.Name):
+            for c in calls_at(n):
+                if isinstance(c.func, ast.Attribute) and c.func.attr in ('padder', 'unpadder'):
+                    builds.append((n, n.stmt.targets[0].id, c.func.attr))
+    ctx.count('padder_constructions', len(builds), 1)
+    pvars = set(v for _, v, _ in builds)
+    fins = [n for n in g.nodes for c in calls_at(n) if isinstance(c.func, ast.Attribute) and c.func.attr == 'finalize' and isinstance(c.func.value, ast.Name) and c.func.value.id in pvars]
+    ups = [n for n in g.nodes for c in calls_at(n) if isinstance(c.func, ast.Attribute) and c.func.attr == 'update' and isinstance(c.func.value, ast.Name) and c.func.value.id in pvars]
+    # the lookups of the padding table: once the requested method was found there, a padder runs
+    lookups = [n for n in g.nodes if n.stmt is not None and n.kind != 'test' for c in calls_at(n) if U(c.func) == 'self._symmetric_padding_methods.get']
+    lookups += [n for n in g.nodes if n.stmt is not None and n.kind != 'test' for x in ast.walk(n.stmt) if isinstance(x, ast.Subscript) and U(x.value) == 'self._symmetric_padding_methods']
+    member = [(m_, n) for n in g.nodes if n.kind == 'test' and isinstance(n.stmt, ast.Compare) and len(n.stmt.ops) == 1 and isinstance(n.stmt.ops[0], ast.In) and '_symmetric_padding_methods' in U(n.stmt.comparators[0]) for m_, l in n.succ if l == 'true']
+    ctx.need(bool(lookups or member), 'C06.R9: the lookup of the requested padding method in self._symmetric_padding_methods was not found in _handle_symmetric_padding')
+    starts = [(m_, n) for n in lookups for m_, l in n.succ if l != 'exc'] + member
+    bad = [n for m_, n in starts if not (fins and ups and g.all_paths_pass(m_, g.exit, fins, labels_excluded=('exc',)) and g.all_paths_pass(m_, g.exit, ups, labels_excluded=('exc',)))]
+    ctx.check(not bad, 'C06.R9', 'CryptographyEngine._handle_symmetric_padding|padding always run', '%s:%s CryptographyEngine._handle_symmetric_padding' % (CRYPTO, bad[0].line if bad else fn.lineno),
+              'every path from the lookup of a supported padding method to the return runs update() and finalize() of a padder / unpadder (%d lookup site(s), %d finalize site(s))' % (len(starts), len(fins)),
+              'a path from the lookup of a supported padding method reaches the return without running a padder / unpadder to the end: for some inputs (a message that fills whole blocks ...) the padding is not applied / not removed')
+    for fnode in fins:
+        swallowed = any(not any(isinstance(x, ast.Raise) for s_ in h.body for x in ast.walk(s_)) for tr in fnode.tries for h in tr.handlers)
+        ctx.check(not swallowed, 'C06.R9', 'CryptographyEngine._handle_symmetric_padding|finalize failure stands', '%s:%s CryptographyEngine._handle_symmetric_padding' % (CRYPTO, fnode.line), 'a failure of finalize() propagates',
+                  'an exception of finalize() is caught and the function goes on (the text is returned as it was): malformed padding is accepted and a plain text that merely ends in pad-like bytes is truncated')
+
 def run(ctx):
     src = ctx.src
     t = src.tree(CRYPTO)
@@ -526,6 +559,7 @@ def run(ctx):
     ctx.check(not stores and not modstate, 'C06.R4', 'CryptographyEngine|stateless', '%s CryptographyEngine' % CRYPTO, 'no instance or module state is written outside __init__',
               'the crypto engine keeps state across calls (cached key material?): %s %s' % (stores, modstate))
     # ---------------- C06.R8 (lifted from C05)
+    check_padding_always_applied(ctx, cls)
     ctx.rule('C06.R8', 'no handler other than the attribute and lifecycle operations writes a field of a loaded object - in particular the key material (.value) handed to the cryptographic engine is what is stored, not something a previous Get-with-wrapping left on the instance (lifted from C05.R7)')
     from ..report import Ctx as _LCtx
     from . import c05 as _lsrc
